@@ -230,8 +230,8 @@ def run_date(ctx):
         method = rng.choice(["variational_gamma", "variational_gamma", "inside_outside", "inside_outside", "maximization"])
         discrete = method != "variational_gamma"
         multi = rng.random() < 0.5
-        ts = G.maybe_permuted(rng, G.pooled_ts(rng, size=ctx.n(10, 40), multi=multi, extras=rng.random() < 0.3,
-                                               min_muts=2, migrations=False), 0.6)
+        ts = G.maybe_permuted(rng, G.maybe_root_mutations(rng, G.pooled_ts(
+            rng, size=ctx.n(10, 40), multi=multi, extras=rng.random() < 0.3, min_muts=2, migrations=False), 0.35), 0.6)
         tables = ts.dump_tables()
         kn, km = rng.choice(SAFE_KINDS), rng.choice(SAFE_KINDS)
         G.decorate(tables.nodes, kn, rng)
